@@ -285,7 +285,7 @@ PROPS = {
     },
     "C12": {
         "units": ["strong"],
-        "bounded_checks": ["strong"],
+        "bounded_checks": ["strong", "preamble"],
         "level": "other",
         "property_obligations": ["StrongEquivalenceTask::transition_axioms", "transition", "lemma_transition_true", "lemma_transition_cover", "Predicate::to_formula",
                                  "Program::predicates", "lemma_program_preds"],
